@@ -267,6 +267,20 @@ Example C15_omit_default_nonvacuous :
   run_unpack E_od Mixin (TData "A") (VDict [("z", VStr "s")]) = Ok (VObj "A" [("x", VInt 7); ("y", VNone); ("z", VStr "s")]).
 Proof. repeat split; reflexivity. Qed.
 
+(* non-literal defaults: a bound constant (date) and default_factory() results (list) are compared structurally *)
+Definition E_nf : env :=
+  [mkC "A" None [mkF "d" None TDate; mkF "l" None (TList TInt); mkF "m" None (TDict TInt)] None None (Some true)
+       [("d", VDate "2020-01-02"); ("l", VList [VInt 1; VInt 2]); ("m", VDict [])] false false false true].
+Example C15_nonliteral_defaults_nonvacuous :
+  exact E_nf (VObj "A" [("d", VDate "2020-01-02"); ("l", VList [VInt 1; VInt 2]); ("m", VDict [("k", VInt 0)])]) (TData "A") = true /\
+  run_pack_o E_nf Mixin no_opts (TData "A") (VObj "A" [("d", VDate "2020-01-02"); ("l", VList [VInt 1; VInt 2]); ("m", VDict [("k", VInt 0)])])
+    = Ok (VDict [("m", VDict [("k", VInt 0)])]) /\
+  run_pack_o E_nf Codec no_opts (TData "A") (VObj "A" [("d", VDate "2020-01-03"); ("l", VList [VInt 1]); ("m", VDict [])])
+    = Ok (VDict [("d", VStr "2020-01-03"); ("l", VList [VInt 1])]) /\
+  run_unpack E_nf Codec (TData "A") (VDict [("l", VList [])])
+    = Ok (VObj "A" [("d", VDate "2020-01-02"); ("l", VList []); ("m", VDict [])]).
+Proof. repeat split; reflexivity. Qed.
+
 (* the frame theorem's hypothesis is met by a real creation (a subclass that compiles a method onto "C") *)
 Example C15_frame_nonvacuous :
   let X := add_class E_ex (mkC "S" (Some "O") [mkF "g" None (TData "C")] None None None [] false false false true) ["C"] in
